@@ -143,7 +143,7 @@ def _mkblock(name, typ, numb, abstract, hostport, path=None):
     return l
 
 
-def body_override(cn: bool, ct: int, cnum: bool, cab: bool, ln: bool, lt: int, lnum: bool, lab: bool, lhp: bool, sidecar: bool, addlink: bool, uselink: bool = True) -> bool:
+def body_override(cn: bool, ct: int, cnum: bool, cab: bool, ln: bool, lt: int, lnum: bool, lab: bool, lhp: bool, sidecar: bool, addlink: bool, uselink: bool = True, captail: int = 0) -> bool:
     from pygopherd.handlers import UMN
 
     cfg = dl.config({("handlers.UMN.UMNDirHandler", "extstrip"): "none"})
@@ -161,7 +161,8 @@ def body_override(cn: bool, ct: int, cnum: bool, cab: bool, ln: bool, lt: int, l
         nodes["/d/.Links"] = mv.File(links)
     if capb:
         nodes["/d/.cap"] = mv.Dir(["a.txt"])
-        nodes["/d/.cap/a.txt"] = mv.File([l + "\n" for l in capb])
+        # a .cap file may end with a blank line, or with a blank line and a comment: still one block
+        nodes["/d/.cap/a.txt"] = mv.File([l + "\n" for l in capb] + [[], ["\n"], ["\n", "# edited by hand\n"]][captail])
     if sidecar:
         nodes["/d/a.txt.abstract"] = mv.File(b"side line 1  \nside line 2\n")
     vfs = mv.MemVFS(cfg, nodes)
@@ -271,10 +272,10 @@ def obligations(tier, seed):
     for ct in range(4):
         for lt in range(3):
             obs.append(Ob(id="C08.3-override[cap.Type=%s,link.Type=%s]" % (TYPES[ct], TYPES[lt]), body="harness.C08:body_override",
-                          sig="cn: bool, ct: int, cnum: bool, cab: bool, ln: bool, lt: int, lnum: bool, lab: bool, lhp: bool, sidecar: bool, addlink: bool, uselink: bool",
-                          pre=["ct == %d" % ct, "lt == %d" % lt] + (["lhp == False", "addlink == uselink"] if tier == "quick" else []), timeout=300 if tier == "quick" else 1200,
+                          sig="cn: bool, ct: int, cnum: bool, cab: bool, ln: bool, lt: int, lnum: bool, lab: bool, lhp: bool, sidecar: bool, addlink: bool, uselink: bool, captail: int",
+                          pre=["ct == %d" % ct, "lt == %d" % lt, "0 <= captail <= 2"] + (["lhp == False", "addlink == uselink", "captail == (1 if cn else 0)"] if tier == "quick" else []), timeout=300 if tier == "quick" else 1200,
                           desc="a.txt with an optional .abstract sidecar, a .cap/a.txt block and a `Path=./a.txt` block in .Links, each with a symbolic subset of "
-                               "Name/Numb/Abstract(/Host+Port) and the given Type, plus an added link: only the set fields change, X/- hides, the added link is appended, "
+                               "Name/Numb/Abstract(/Host+Port) and the given Type (the .cap file optionally ending in a blank line / a blank line and a comment), plus an added link: only the set fields change, X/- hides, the added link is appended, "
                                "the order is the documented one",
                           bounds="2^4 x 2^5 field subsets x sidecar x added link (symbolic)", functions=["UMNDirHandler.prep_entriesappend/MergeLinkFiles/mergeentries/entrycmp", "GopherEntry.handleeaext"]))
     obs.append(Ob(id="C08.6-extstrip", body="harness.C08:body_extstrip", sig="mode: int", pre=["0 <= mode <= 2"], timeout=120,
